@@ -35,6 +35,7 @@ var c09Confs = []struct {
 	{"full", world.SPConf{Store: []string{"K1", "K3"}}},
 	{"skip-signature", world.SPConf{Store: []string{"K1"}, SkipSig: true}},
 	{"bare(empty store,no keys,nil clock)", world.SPConf{Store: []string{}, EncField: "-", NilClock: true}},
+	{"custom key store without a certificate, encryption certificate validated", world.SPConf{Store: []string{"K1"}, PlainStores: true, EncCertState: "nocert", ValidateEncCert: true}},
 }
 
 var c09Entries = []string{"ValidateEncodedResponse", "RetrieveAssertionInfo", "DecodeUnverifiedBaseResponse", "DecodeUnverifiedLogoutResponse", "ValidateEncodedLogoutRequestPOST", "ValidateEncodedLogoutResponsePOST"}
